@@ -8,6 +8,7 @@ import (
 
 	"github.com/juev/hledger-lsp/internal/ast"
 	"github.com/juev/hledger-lsp/internal/include"
+	"github.com/juev/hledger-lsp/internal/lsputil"
 	"github.com/juev/hledger-lsp/internal/parser"
 )
 
@@ -24,10 +25,42 @@ func (s *Server) References(ctx context.Context, params *protocol.ReferenceParam
 		return nil, nil
 	}
 
-	resolved := s.getWorkspaceResolved(params.TextDocument.URI)
-	currentPath := uriToPath(params.TextDocument.URI)
+	resolved, primaryPath := s.resolvedWithPrimaryPath(params.TextDocument.URI)
 
-	return findReferences(target, resolved, currentPath, journal, params.Context.IncludeDeclaration), nil
+	return findReferences(target, resolved, primaryPath, journal, params.Context.IncludeDeclaration), nil
+}
+
+// nameRange is the range of a symbol's lexeme given where it starts. The syntax tree records no
+// End for the names in directives, and the End of an account token lies past a single blank
+// that precedes ';', ')' or ']', so the end is derived from the name itself.
+func nameRange(start ast.Position, name string) ast.Range {
+	return ast.Range{
+		Start: start,
+		End:   ast.Position{Line: start.Line, Column: start.Column + lsputil.UTF16Len(name)},
+	}
+}
+
+func accountNameRange(account *ast.Account) ast.Range {
+	return nameRange(account.Range.Start, account.Name)
+}
+
+func directiveCommodityRange(commodity *ast.Commodity) ast.Range {
+	return nameRange(commodity.Range.Start, commodity.Symbol)
+}
+
+// postingCommodities lists the commodities written on a posting line: amount, cost, assertion.
+func postingCommodities(p *ast.Posting) []*ast.Commodity {
+	var result []*ast.Commodity
+	if p.Amount != nil {
+		result = append(result, &p.Amount.Commodity)
+	}
+	if p.Cost != nil {
+		result = append(result, &p.Cost.Amount.Commodity)
+	}
+	if p.BalanceAssertion != nil {
+		result = append(result, &p.BalanceAssertion.Amount.Commodity)
+	}
+	return result
 }
 
 func findReferences(target *definitionTarget, resolved *include.ResolvedJournal, currentPath string, currentJournal *ast.Journal, includeDeclaration bool) []protocol.Location {
@@ -57,7 +90,7 @@ func findAccountReferences(name string, resolved *include.ResolvedJournal, curre
 					if ad.Account.Name == name {
 						locations = append(locations, protocol.Location{
 							URI:   pathToURI(filePath),
-							Range: *astRangeToProtocol(computeAccountRange(&ad.Account)),
+							Range: *astRangeToProtocol(accountNameRange(&ad.Account)),
 						})
 					}
 				}
@@ -71,7 +104,7 @@ func findAccountReferences(name string, resolved *include.ResolvedJournal, curre
 				if p.Account.Name == name {
 					locations = append(locations, protocol.Location{
 						URI:   pathToURI(filePath),
-						Range: *astRangeToProtocol(computeAccountRange(&p.Account)),
+						Range: *astRangeToProtocol(accountNameRange(&p.Account)),
 					})
 				}
 			}
@@ -88,15 +121,27 @@ func findCommodityReferences(symbol string, resolved *include.ResolvedJournal, c
 	for _, filePath := range sortedJournalPaths(journals) {
 		journal := journals[filePath]
 
-		if includeDeclaration {
-			for _, dir := range journal.Directives {
-				if cd, ok := dir.(ast.CommodityDirective); ok {
-					if cd.Commodity.Symbol == symbol {
-						locations = append(locations, protocol.Location{
-							URI:   pathToURI(filePath),
-							Range: *astRangeToProtocol(cd.Commodity.Range),
-						})
-					}
+		for _, dir := range journal.Directives {
+			switch d := dir.(type) {
+			case ast.CommodityDirective:
+				if includeDeclaration && d.Commodity.Symbol == symbol {
+					locations = append(locations, protocol.Location{
+						URI:   pathToURI(filePath),
+						Range: *astRangeToProtocol(directiveCommodityRange(&d.Commodity)),
+					})
+				}
+			case ast.PriceDirective:
+				if d.Commodity.Symbol == symbol {
+					locations = append(locations, protocol.Location{
+						URI:   pathToURI(filePath),
+						Range: *astRangeToProtocol(directiveCommodityRange(&d.Commodity)),
+					})
+				}
+				if d.Price.Commodity.Symbol == symbol {
+					locations = append(locations, protocol.Location{
+						URI:   pathToURI(filePath),
+						Range: *astRangeToProtocol(d.Price.Commodity.Range),
+					})
 				}
 			}
 		}
@@ -104,12 +149,13 @@ func findCommodityReferences(symbol string, resolved *include.ResolvedJournal, c
 		for i := range journal.Transactions {
 			tx := &journal.Transactions[i]
 			for j := range tx.Postings {
-				p := &tx.Postings[j]
-				if p.Amount != nil && p.Amount.Commodity.Symbol == symbol {
-					locations = append(locations, protocol.Location{
-						URI:   pathToURI(filePath),
-						Range: *astRangeToProtocol(p.Amount.Commodity.Range),
-					})
+				for _, c := range postingCommodities(&tx.Postings[j]) {
+					if c.Symbol == symbol {
+						locations = append(locations, protocol.Location{
+							URI:   pathToURI(filePath),
+							Range: *astRangeToProtocol(c.Range),
+						})
+					}
 				}
 			}
 		}
